@@ -35,9 +35,18 @@ def rand_set(rng, n_hint, uid=False, hi=None):
 
 
 def gen_scenario(seed, length=30, sessions=("A", "B"), mboxes=("inbox", "b"),
-                 weights=None, with_restart=True, with_pack=False):
+                 weights=None, with_restart=True, with_pack=False, prefill=None):
     rng = random.Random(seed)
     steps = [("create", "A0", m) for m in mboxes if m != "inbox"]
+    if prefill:
+        # some histories start from mailboxes that already hold a number of messages (UIDs and message
+        # numbers beyond the first handful; after expunges: sparse sets of large values)
+        prng = random.Random(seed * 7 + 1)
+        for m in mboxes:
+            k = prng.choice(prefill)
+            if k:
+                steps.append(("deliver", m, k, prng.random() < 0.5, True))
+        steps.append(("poll",))
     w = {"select": 6, "examine": 2, "append": 8, "deliver": 8, "poll": 5, "store": 12,
          "fetch": 6, "fetchbody": 3, "expunge": 6, "uidexpunge": 3, "copy": 5, "move": 4,
          "noop": 8, "check": 2, "idle": 3, "done": 3, "close": 2, "unselect": 1,
@@ -78,7 +87,7 @@ def gen_scenario(seed, length=30, sessions=("A", "B"), mboxes=("inbox", "b"),
             steps.append((op,))
         elif op == "store":
             steps.append((op, s, rand_set(rng, 4, uid, hi=6 if uid else 4), rng.choice("+-="),
-                          rng.sample(FLAGS, rng.choice([1, 1, 2])), rng.random() < 0.3, uid))
+                          rng.sample(FLAGS, rng.choice([1, 1, 2, 2, 3])), rng.random() < 0.3, uid))
         elif op in ("fetch", "fetchbody"):
             steps.append((op, s, rand_set(rng, 4, uid, hi=6 if uid else 4),
                           rng.choice(["flags", "uidflags", "peek"]) if op == "fetch"
